@@ -17,3 +17,46 @@ class wf_branch_at:
     def body(u, ns, k, i):
         if k < i:
             wf_branch_at(u, ns, k + 1, i)
+
+
+@lemma("rec_branch_shape")
+class rec_branch_shape:
+    """a well-formed union branch that is a record (inline or by name) denotes a record definition:
+    a dict without logical type whose "fields" is a well-formed field list"""
+    types = dict(b="py", ns="dict")
+    unfold_here = ["NS_CLEAN"]
+    requires = lambda b, ns: A.WF(b, ns) and not isinstance(b, list) and A.IS_REC(b, ns)
+    ensures = lambda b, ns: (
+        isinstance(A.BDEF(b, ns), dict) and A.TYPE(A.BDEF(b, ns)) == "record"
+        and "logicalType" not in A.BDEF(b, ns)
+        and "fields" in A.BDEF(b, ns) and isinstance(A.BDEF(b, ns)["fields"], list)
+        and A.WF_FIELDS(A.BDEF(b, ns)["fields"], ns, 0))
+
+    def body(b, ns):
+        pass
+
+
+@lemma("valid_rec_is_dict")
+class valid_rec_is_dict:
+    """only mappings validate against a record branch"""
+    types = dict(d="py", b="py", ns="dict", o="dict")
+    unfold_here = ["NS_CLEAN"]
+    requires = lambda d, b, ns, o: (
+        A.WF(b, ns) and not isinstance(b, list) and A.IS_REC(b, ns) and A.VALID(d, b, ns, o))
+    ensures = lambda d, b, ns, o: isinstance(d, dict)
+
+    def body(d, b, ns, o):
+        pass
+
+
+@lemma("dd_branch_at")
+class dd_branch_at:
+    """every branch of a union whose defaults are data has defaults that are data"""
+    types = dict(u="list", ns="dict", o="dict", k="int", i="int")
+    requires = lambda u, ns, o, k, i: A.DEFAULTS_DATA_BRANCHES(u, ns, o, k) and 0 <= k and k <= i and i < len(u)
+    ensures = lambda u, ns, o, k, i: A.DEFAULTS_DATA(u[i], ns, o)
+    decreases = lambda u, ns, o, k, i: i - k
+
+    def body(u, ns, o, k, i):
+        if k < i:
+            dd_branch_at(u, ns, o, k + 1, i)
